@@ -329,6 +329,16 @@ def check(prop, tier):
         if widened:
             oracle_fails = [f for f in (widened.get("findings") or []) if f["kind"] == "oracle"]
 
+    # Lean-side search on the regenerated definitions (translated functions), when nothing concrete was found yet
+    if (not proofs_ok or corr_fails) and not oracle_fails and spec.get("lean_search"):
+        with Lock("lake"):
+            rc, out = sh(["lake", "env", "lean", spec["lean_search"]], cwd=LEAN, timeout=600)
+        for line in out.splitlines():
+            m = re.match(r"COUNTEREXAMPLE (\S+) \| (.*)", line)
+            if m:
+                oracle_fails.append({"kind": "oracle", "key": m.group(1), "case": m.group(2), "real": "evaluated on the functions translated from the current source (" + spec["lean_search"] + ")",
+                                     "model": "", "detail": "the property clause fails on the regenerated definition at this input"})
+
     if tier == "thorough" and spec.get("race") and harness_ok:
         rres = step_harness(spec, "quick", seed, log, race=True)
         if rres is None or rres.get("go_test_rc") != 0:
